@@ -30,6 +30,11 @@ def cases(draw, tier):
     nmax = 3 if tier == "quick" else (3 if t == "density" else 4)
     if draw(st.integers(0, 5)) == 0:
         sc = draw(gen.state_case(types=[t], n=(1, nmax), nh=(1, 3), na=(1, 3), scales=[0.5, 2.0, 8.0, 30.0], bound=34.0))     # strongly polarised states: Born probabilities down to ~1e-15
+        if draw(st.booleans()):
+            # one visible bias of magnitude 28-33: some Born probability lands between 1e-15 and 1e-12 without any cancellation (well conditioned)
+            j_ = draw(st.integers(0, sc["n"] - 1))
+            sc["am"]["b"][j_] = draw(st.sampled_from([-1.0, 1.0])) * draw(st.floats(28.0, 33.0, allow_nan=False, width=64))
+            sc["polarised"] = True
     else:
         sc = draw(gen.state_case(types=[t], n=(1, nmax), nh=(1, 3), na=(1, 3), scales=[0.05, 0.5, 0.5, 2.0], bound=30.0, unitaries=True))     # user-added / overridden unitaries in half of the complex/mixed cases
     alt = draw(gen.state_case(types=[t], n=(sc["n"], sc["n"]), nh=(sc["nh"], sc["nh"]), na=(sc.get("na", 1), sc.get("na", 1)), scales=[0.5, 2.0], bound=30.0))
